@@ -104,7 +104,7 @@ where
         };
         for st in sts {
             // (step size, deviation bound): shallow trees fully, deep trees with fewer deviations
-            let plan: Vec<(f64, usize)> = if thorough { vec![(1.5, 3), (0.5, 3), (0.1, 2), (0.03, 1), (0.01, 0), (10.0, 2)] } else { vec![(1.5, 2), (0.5, 2), (0.1, 1), (0.02, 0), (10.0, 1)] };
+            let plan: Vec<(f64, usize)> = if thorough { vec![(1.5, 3), (0.5, 3), (0.1, 2), (0.03, 1), (0.01, 0), (10.0, 2), (3.0, 2)] } else { vec![(1.5, 2), (0.5, 2), (0.1, 1), (0.02, 0), (10.0, 1), (3.0, 1)] };
             for (eps, bound) in plan {
                 if f32b && eps < 0.05 {
                     continue; // deep trees on the f64 backend only
@@ -260,7 +260,7 @@ where
 }
 
 pub fn run(ctx: &Ctx) {
-    ctx.rule("E1: every draw of a real NUTSChain::step is a choice injected through taps (momentum: full product over {-1.5,-0.3,0.3,1.5} for D<=2 else <=1 deviating coordinate; slice variate {1e-12,0.1,1,5,50}; direction uniform {1/4,3/4}; every merge uniform {0, just below / exactly n''/(n'+n''), 1/2, 1-2^-53}; every top-level accept uniform {0, just below / exactly min(1,n'/n), 1/2, 1-ulp}); all choice vectors with <= the stated number of deviations from the defaults per base configuration (targets: matmul Gaussians D=1,2,3(,5,8), DiffableGaussian2D, Rosenbrock2D, funnel, quartic; 2-3 starts; step sizes 10 / 1.5 / 0.5 / 0.1 / 0.02-0.01 giving depths 0..10). Oracle: the recorded trajectory (every leaf, merge, doubling) is replayed by an iterative Algorithm 6 on the implementation's own recorded operands (exact decisions), every leaf is checked against an f64 leapfrog step. states = distinct (target, step size, depth, #leaves, moved, divergent, early-stop) classes; transitions = real step() calls");
+    ctx.rule("E1: every draw of a real NUTSChain::step is a choice injected through taps (momentum: full product over {-1.5,-0.3,0.3,1.5} for D<=2 else <=1 deviating coordinate; slice variate {1e-12,0.1,1,5,50,3e3,1e6} (the large ones make leaves with an energy error between 1000 and 1000+e non-divergent); direction uniform {1/4,3/4}; every merge uniform {0, just below / exactly n''/(n'+n''), 1/2, 1-2^-53}; every top-level accept uniform {0, just below / exactly min(1,n'/n), 1/2, 1-ulp}); all choice vectors with <= the stated number of deviations from the defaults per base configuration (targets: matmul Gaussians D=1,2,3(,5,8), DiffableGaussian2D, Rosenbrock2D, funnel, quartic; 2-3 starts; step sizes 10 / 3 / 1.5 / 0.5 / 0.1 / 0.02-0.01 giving depths 0..10). Oracle: the recorded trajectory (every leaf, merge, doubling) is replayed by an iterative Algorithm 6 on the implementation's own recorded operands (exact decisions), every leaf is checked against an f64 leapfrog step. states = distinct (target, step size, depth, #leaves, moved, divergent, early-stop) classes; transitions = real step() calls");
     let agg = Mutex::new(Agg::default());
     run_backend::<f64, BF64>(ctx, "f64 / NdArray<f64>", false, &agg);
     run_backend::<f32, BF32>(ctx, "f32 / NdArray<f32>", true, &agg);
